@@ -56,6 +56,12 @@ Theorem C23_lex_delimited : forall uni_alnum uni_upper (q : Z) (s : list Z),
 Proof. exact lex_delimited. Qed.
 Print Assumptions C23_lex_delimited.
 
+(** truncated statements: a quote that is never closed is a LexerError, whatever follows *)
+Theorem C23_lex_unterminated_string : forall uni_alnum uni_upper (s : list Z),
+  ~ In 39%Z s -> exists L, tokenize uni_alnum uni_upper (39%Z :: s) = Err EUnterminatedString L.
+Proof. exact lex_unterminated_string. Qed.
+Print Assumptions C23_lex_unterminated_string.
+
 (** *** Parser (recursion skeleton) *)
 
 (** the skeleton interpreter itself always returns with its standard fuel *)
